@@ -114,7 +114,7 @@ def stage_pbt(pid, stage, tier):
     binary = vfbuild.build_driver(stage["driver"], stage.get("variant", "asan"), stage["src"])
     wd = workdir(pid, stage["name"])
     mode = stage.get("mode", "run")
-    shards = cfg.get("shards", 1) if mode == "run" else 1
+    shards = cfg.get("shards", 1) if mode == "run" else cfg.get("enum_shards", 8)
     base = seed_base()
     jobs = []
     for k in range(shards):
@@ -122,7 +122,10 @@ def stage_pbt(pid, stage, tier):
             base * 1000 + k + 1, cfg.get("cases", 100), cfg.get("size", 100))})
         env.update(stage.get("env", {}))
         cmd = list(stage.get("wrapper", [])) + [binary, "--" + mode, "--tier", tier, "--stats", os.path.join(wd, "stats-%d.json" % k),
-                        "--faildir", os.path.join(wd, "fails")] + list(cfg.get("args", []))
+                        "--faildir", os.path.join(wd, "fails-%d" % k)] + list(cfg.get("args", []))
+        os.makedirs(os.path.join(wd, "fails-%d" % k), exist_ok=True)
+        if mode == "enum":
+            cmd += ["--enum-shard", "%d/%d" % (k, shards)]
         jobs.append((cmd, env, cfg.get("timeout", 3600), os.path.join(wd, "log-%d.txt" % k)))
     t0 = time.time()
     results = run_parallel(jobs)
@@ -150,10 +153,10 @@ def stage_pbt(pid, stage, tier):
         # crash (sanitizer abort / signal).  The driver's death callback saved the case it was running; for rapidcheck
         # shards the shard is re-run with one forked child per case so that the crash becomes an ordinary failure which
         # rapidcheck can shrink (bounded in time; the unshrunk crash case is the fall-back).
-        crash_case = os.path.join(wd, "fails", "%s-crash.case" % pid)
+        crash_case = os.path.join(wd, "fails-%d" % k, "%s-crash.case" % pid)
         crash_copy = None
         if os.path.exists(crash_case):
-            crash_copy = os.path.join(wd, "fails", "%s-crash-shard%d.case" % (pid, k))
+            crash_copy = os.path.join(wd, "fails-%d" % k, "%s-crash-shard%d.case" % (pid, k))
             shutil.copyfile(crash_case, crash_copy)
         out.notes.append("shard %d died with status %s (%s)" % (k, rc, sanitizer_summary(log)))
         found = None
